@@ -1,10 +1,29 @@
 (* Props/C09.v -- property C09: every transmission uses an enabled in-band channel, a legal data rate and power; selection terminates
    (on every stream that contains a draw hitting a usable channel -- and a usable channel always exists; see C09_*_refuted for the
    literal "every random stream", which the rejection loops do not satisfy: recorded known finding). *)
-From Coq Require Import NArith ZArith List Bool.
-From LoraV Require Import Base.Bytes Gen.RegionTables Model.Region Model.Mac Proofs.OtaaProofs Proofs.TxProofs Proofs.NoPanicProofs Model.Frame Model.NbDev Proofs.TxHistory Model.AsyncDev Proofs.AsyncTxHistory Proofs.SelectProgress.
+From Coq Require Import NArith ZArith List Bool Lia.
+From LoraV Require Import Spec.RP002 Base.Bytes Gen.RegionTables Model.Region Model.Mac Proofs.OtaaProofs Proofs.TxProofs Proofs.NoPanicProofs Model.Frame Model.NbDev Proofs.TxHistory Model.AsyncDev Proofs.AsyncTxHistory Proofs.SelectProgress.
 Import ListNotations.
 Local Open Scope nat_scope.
+
+(* the regional constants of the regenerated tables are those of RP002 (written independently in Spec/RP002.v): band limits, maximum EIRP,
+   highest TXPower index, largest RX1DROffset, the default join channels (AS923-n: the AS923 frequencies plus the group offset) *)
+Theorem C09_regional_constants_match_rp002 : forall r, (r < 9)%N ->
+  (r_freq_lo r, r_freq_hi r) = rp_band r /\ r_max_eirp r = rp_max_eirp r /\ r_pw_max r = rp_max_power_index r /\
+  r_max_rx1_off r = rp_max_rx1_offset r /\ r_join_freqs r = rp_join_channels r /\ r_num_join r = N.of_nat (length (rp_join_channels r)).
+Proof.
+  intros r H.
+  assert (E : forallb (fun r => (r_freq_lo r =? fst (rp_band r))%N && (r_freq_hi r =? snd (rp_band r))%N && (r_max_eirp r =? rp_max_eirp r)%N &&
+                                (r_pw_max r =? rp_max_power_index r)%N && (r_max_rx1_off r =? rp_max_rx1_offset r)%N &&
+                                (if list_eq_dec N.eq_dec (r_join_freqs r) (rp_join_channels r) then true else false) &&
+                                (r_num_join r =? N.of_nat (length (rp_join_channels r)))%N) (map N.of_nat (seq 0 9)) = true) by (vm_compute; reflexivity).
+  rewrite forallb_forall in E. specialize (E r). assert (Hin : In r (map N.of_nat (seq 0 9))).
+  { apply in_map_iff. exists (N.to_nat r). split; [apply N2Nat.id|apply in_seq; lia]. }
+  specialize (E Hin). repeat (apply andb_true_iff in E; destruct E as [E ?]).
+  repeat match goal with X : (_ =? _)%N = true |- _ => apply N.eqb_eq in X end.
+  destruct (list_eq_dec N.eq_dec (r_join_freqs r) (rp_join_channels r)) as [EJ|]; [|discriminate].
+  destruct (rp_band r) as [lo hi] eqn:EB. cbn [fst snd] in *. repeat split; congruence.
+Qed.
 
 (* the in-band invariant of dynamic plans: holds initially, kept by every operation that defines channels *)
 Theorem C09_plan_invariant_initial : forall r, (r < 9)%N -> r_fixed r = false -> dyn_ok r (dyn_new r).
